@@ -1,6 +1,7 @@
 package main
 
 import (
+	"os"
 	"fmt"
 	"go/token"
 	"go/types"
@@ -69,7 +70,7 @@ func checkC02(c *Ctx) {
 	c.Floor["R02.3"] = 3
 	c.Floor["R02.5"] = 30
 	c.Floor["R02.7"] = 1
-	c.Floor["R02.8"] = 15
+	c.Floor["R02.8"] = 5
 	c.Floor["R02.9"] = 1
 	c.Floor["R10.7"] = 10
 }
@@ -373,6 +374,20 @@ func c02Newline(c *Ctx, p *Prog, m *Model) {
 				for _, g := range guardsOf(site.Block()) {
 					ds = append(ds, m.guardDesc(g))
 				}
+				// a private predicate "every byte of the message is white space" is the same test as the trimmed-empty one
+				for i, g := range guardsOf(site.Block()) {
+					cond, neg := normCond(g.If.Cond)
+					if call, ok := cond.(*ssa.Call); ok && (g.Succ == 0) != neg && len(call.Common().Args) == 1 {
+						if os.Getenv("LOGGCHECK_DEBUG") != "" {
+							fmt.Fprintf(os.Stderr, "BLANK cand %v white=%v\n", calleeOf(call), calleeOf(call) != nil && allBytesWhite(calleeOf(call)))
+						}
+						if cal := calleeOf(call); cal != nil && cal.Pkg == p.Slog && allBytesWhite(cal) {
+							if _, isMsg := isFieldLoadOf(call.Common().Args[0], "PrintCtx", "msg"); isMsg {
+								ds[i] = `T:call strings.Trim == ""`
+							}
+						}
+					}
+				}
 				sort.Strings(ds)
 				want := []string{"T:PrintCtx.lvl == AlwaysLevel", `T:call strings.Trim == ""`}
 				r.Check(strings.Join(ds, "|") == strings.Join(want, "|"), "R02.3", key+"[blank-guard]", p.Pos(instrPos(site)),
@@ -657,3 +672,70 @@ func after(a, b ssa.Instruction) bool {
 }
 
 var _ = token.NoPos
+
+
+// allBytesWhite: fn(s string) bool answers "every byte of s is white space" (true for the empty string): a loop
+// over every index of s whose body leaves with false exactly when the byte equals none of a set of white-space
+// constants, and true after the loop.
+func allBytesWhite(fn *ssa.Function) bool {
+	if len(fn.Params) != 1 || !isStringT(fn.Params[0].Type()) || fn.Signature.Results().Len() != 1 {
+		return false
+	}
+	prm := fn.Params[0]
+	white := map[int64]bool{' ': true, '\t': true, '\n': true, '\r': true, '\v': true, '\f': true}
+	// the byte load s[i] with i a full index loop over s
+	isByte := func(v ssa.Value) bool {
+		lk, ok := strip(v).(*ssa.Index)
+		return ok && lk.X == ssa.Value(prm) && fullIndexLoop(lk.Index, prm)
+	}
+	nTrue, nFalse := 0, 0
+	for _, b := range fn.Blocks {
+		ret, ok := b.Instrs[len(b.Instrs)-1].(*ssa.Return)
+		if !ok {
+			continue
+		}
+		rv, isC := constBool(ret.Results[0])
+		if !isC {
+			return false
+		}
+		if rv {
+			nTrue++
+			// only past the loop: no byte comparison's outcome on the way except "loop finished"
+			for _, g := range guardsOf(b) {
+				cond, _ := normCond(g.If.Cond)
+				if bo, ok := cond.(*ssa.BinOp); ok && (isByte(bo.X) || isByte(bo.Y)) {
+					return false
+				}
+			}
+			continue
+		}
+		nFalse++
+		set := map[int64]bool{}
+		for _, g := range guardsOf(b) {
+			cond, neg := normCond(g.If.Cond)
+			bo, ok := cond.(*ssa.BinOp)
+			if !ok || !isByte(bo.X) {
+				continue
+			}
+			c, isC := constInt(bo.Y)
+			if !isC {
+				return false
+			}
+			taken := (g.Succ == 0) != neg
+			if (bo.Op == token.EQL && !taken) || (bo.Op == token.NEQ && taken) {
+				set[c] = true
+			} else {
+				return false
+			}
+		}
+		if !set[' '] || !set['\n'] {
+			return false
+		}
+		for c := range set {
+			if !white[c] {
+				return false
+			}
+		}
+	}
+	return nTrue == 1 && nFalse == 1
+}
